@@ -1340,10 +1340,13 @@ def gen_ns_docs(rng, tier):
 
 
 def ns_heuristic_wrong(a):
-    """an unprefixed reference, no default namespace in scope, the document has its own target namespace and
-    binds no prefix to it: element_namespace takes it for a chameleon include"""
+    """an unprefixed reference with no default namespace in scope, where "the target namespace has no binding
+    in this document" and "this document is a chameleon include" do not coincide (the model's `refHeuristicOk`
+    is false): element_namespace answers the target namespace for a document with its own, unbound, target
+    namespace, and no namespace for a chameleon include that binds a prefix to the includer's namespace"""
     c = a["ctx"]
-    return bool(c["tns"]) and not c.get("chameleon") and not c["default"] and c["tns"] not in c["prefixes"].values() and any(
+    bound = c["tns"] in c["prefixes"].values()
+    return bool(c["tns"]) and not c["default"] and bool(c.get("chameleon")) == bound and any(
         d["kind"] == "ref" and d["prefix"] is None for d in a["decls"])
 
 
@@ -1572,15 +1575,25 @@ TRUSTED = [
     "jinja2/ruff are absent: harness/standin_render.py transliterates the templates; everything else in the end-to-end ops is the real pipeline",
     "lxml.etree.XMLSchema (libxml2) is the independent validator of instance documents",
 ]
-ASSUMPTIONS = ["element children are xs:string; attributes, simple types, substitution groups, wildcards, extension are exercised only through other properties"]
+ASSUMPTIONS = [
+    "modelled fragments: occurrence arithmetic (sequence/choice/all/named groups/substitution groups, extension, restriction overrides), use/default/fixed of "
+    "string-typed or untyped declarations, namespaces and forms (one schema document with imports and chameleon include); simple-type derivation, field python "
+    "types, compound-field arithmetic, wildcards, nillable and mixed content are covered by the oracles only",
+]
 LEVEL_TEXT = (
-    "Partial. Lean theorems (Props/C02.lean) about the occurrence arithmetic the property hinges on: for content models whose element "
-    "names occur at one site each, a field the generator makes non-list is never repeated in a valid document and a field it makes "
-    "required is always present (so strict parsing cannot fail on occurrence grounds), for every particle and every word of its "
-    "language; counterexample theorems for repeated names. The model is tied to /repo by correspondence of each handler and of the "
-    "whole pipeline's generated field shapes; documents are checked end to end by the oracle."
+    "Partial. Lean theorems (Props/C02.lean, Props/C02Ns.lean) about the decisions the property hinges on. Occurrences: for content models "
+    "whose field names occur at one site each, over sequences, choices, xs:all, references to named groups (each with its own range), "
+    "substitution groups (whole content models), extension and restriction overrides, a field the generator makes non-list is never repeated "
+    "in a valid document, a field it makes required is always present, and a list field is needed, for every particle and every word of its "
+    "language; the handlers are total. use/default/fixed: every value a valid element carries for an attribute is accepted and read as its "
+    "schema-normalized value; element defaults. Namespaces and forms: the field of every local declaration, reference or global declaration is "
+    "bound to the namespace the schema gives it (form, elementFormDefault/attributeFormDefault, targetNamespace, prefixes, default namespace, "
+    "chameleon include), except where the chameleon heuristic for unprefixed references is wrong (counterexample + finding). Counterexample "
+    "theorems for repeated names. The models are tied to /repo by correspondence of each handler / mapper stage and of the whole pipeline's "
+    "generated fields and bound names; documents are checked end to end by nine oracles."
 )
 LEVEL_NOTE = (
-    "Trusted: Lean kernel; particle language spec; stand-in renderer for the Jinja2 templates; sampling correspondence. Not covered: "
-    "types, attributes, namespaces/forms, substitution groups, wildcards, extension, output options (only via the oracle's default config)."
+    "Trusted: Lean kernel; particle language and attribute-use / namespace specs; stand-in renderer for the Jinja2 templates; sampling "
+    "correspondence. Not modelled (oracles only): simple-type restriction/list/union/enumeration and the python field types, compound-field "
+    "min/max arithmetic, wildcards, nillable, mixed content, recursion, output options."
 )
